@@ -41,6 +41,33 @@ def histories(ck):
                    rule="repository corpus + edge patterns + seeded generated patterns; second history = random permutation with rejected inputs interleaved (30%); distinct = distinct texts")
 
 
+def range_with_expression_bound(ast):
+    """Does the accepted pattern contain a range whose bound is not something a Rust range PATTERN can hold (a literal, a negated
+    literal, a path)?  Read off the harness's AST dump: `(range id (e (range ..) span text (toks hex@span ...)))`."""
+    import re
+    for m in re.finditer(r"\(range \d+ \(e \(range [^)]*\) \S+ \S+ \(toks ([^)]*)\)", ast):
+        toks = [bytes.fromhex(t.split("@")[0][2:] if t.startswith("s:") else t.split("@")[0]).decode("utf-8", "replace") if t.split("@")[0] != "-" else "" for t in m.group(1).split(" ") if t]
+        # split at the range operator (`..` or `..=`, the first two adjacent dots that are not part of a bound)
+        k = next((i for i in range(len(toks) - 1) if toks[i] == "." and toks[i + 1] == "."), None)
+        if k is None:
+            return True
+        lo, hi = toks[:k], toks[k + 2:]
+        if hi[:1] == ["="]:
+            hi = hi[1:]
+        for b in (lo, hi):
+            if not b:
+                continue
+            if b[0] == "-":
+                b = b[1:]
+            is_lit = len(b) == 1 and re.match(r"^([0-9]|'|b'|\"|r\"|r#|b\")", b[0])
+            kw = {"break", "return", "continue", "loop", "if", "match", "while", "for", "unsafe", "async", "move", "as", "let", "fn", "struct", "enum", "impl", "trait", "mod", "use", "where", "yield", "await", "dyn", "ref", "mut", "in", "else", "true", "false", "const", "static", "type", "pub", "extern"}
+            bb = b[2:] if b[:2] == [":", ":"] else b
+            is_path = len(bb) % 3 == 1 and all((re.match(r"^(r#)?[A-Za-z_][A-Za-z0-9_]*$", x) and x not in kw) if i % 3 == 0 else x == ":" for i, x in enumerate(bb))
+            if not (is_lit or is_path):
+                return True
+    return False
+
+
 def run(ck):
     ck.prove(["AsModel.Theorems.C14", "AsModel.Theorems.C14Parse"])
     ck.build_harness("inproc")
@@ -49,7 +76,10 @@ def run(ck):
     for m in mm:
         if m["part"] == "wellformed":
             ck.report("node-refs:" + hexs(m["text"])[:40], "the generated code refers to a pattern-tree node that is not defined exactly once", dict(invocation=m["text"], detail=m["detail"]))
-        if m["part"] == "validity":
+        if m["part"] == "validity" and range_with_expression_bound(m.get("ast", "")):
+            ck.report("invalid-rust:range-bound-expression", "the macro accepts a range pattern whose bound is an expression (a call, an operator, a block ..) and splices it into a native range pattern: the generated code is not syntactically valid Rust",
+                      dict(invocation=m["text"], detail=m["detail"]))
+        elif m["part"] == "validity":
             ck.report("invalid-rust:" + hexs(m["text"])[:40], "the macro accepts the invocation but the generated code is not syntactically valid Rust", dict(invocation=m["text"], detail=m["detail"]))
     histories(ck)
     inputs, outs = t1.run(ck)
